@@ -118,8 +118,10 @@ def small_values():
     )
 
 
-def field_dicts(max_size=3, names=None):
-    return st.dictionaries(names if names is not None else field_names(), small_values(), max_size=max_size)
+def field_dicts(max_size=3, names=None, values=None):
+    return st.dictionaries(
+        names if names is not None else field_names(), values if values is not None else small_values(), max_size=max_size
+    )
 
 
 def colliding_field_names():
